@@ -70,7 +70,7 @@ def classify_check(c):
     """-> one of oracle, panic, memory, inconclusive"""
     d = c.get("description", "")
     cat = c.get("category", "")
-    if re.match(r"C\d\d:", d):
+    if re.match(r"(C\d\d|ORACLE):", d):
         return "oracle"
     if cat == "unwind" or INCONCLUSIVE_PAT.search(d) or cat == "unsupported_construct":
         return "inconclusive"
@@ -121,6 +121,14 @@ def sh(cmd, cwd=None, timeout=None, limits=True, env=None, logfile=None):
     return rc, so or "", time.time() - t0
 
 
+def seed_target(tdir):
+    """Each property has its own cargo target dir (concurrent checks must not share one);
+    a new one is seeded from the dir pre-built by setup so dependencies are not rebuilt."""
+    base = os.path.join(WORK, "target-base")
+    if not os.path.exists(tdir) and os.path.isdir(base):
+        subprocess.call(["cp", "-r", base, tdir])
+
+
 def kani_run(hs, tag, jobs=16, harness_timeout=600, overall_timeout=None):
     """Run the given catalog entries in one cargo-kani invocation; return {name: HR}."""
     os.makedirs(WORK, exist_ok=True)
@@ -131,9 +139,11 @@ def kani_run(hs, tag, jobs=16, harness_timeout=600, overall_timeout=None):
     lpath = os.path.join(WORK, f"kani-{tag}.log")
     if os.path.exists(jpath):
         os.remove(jpath)
-    cmd = ["cargo", "kani", "--target-dir", os.path.join(WORK, "target"), "-Z", "unstable-options", "-Z", "stubbing",
+    tdir = os.path.join(WORK, "target-" + tag.split("-")[0])
+    seed_target(tdir)
+    cmd = ["cargo", "kani", "--target-dir", tdir, "-Z", "unstable-options", "-Z", "stubbing",
            "--harness-timeout", f"{harness_timeout}s", "--export-json", jpath, "-j", str(min(jobs, len(hs))),
-           "--output-format", "terse", "--exact"]
+           "--output-format", "terse", "--exact", "--no-assertion-reach-checks"]
     for h in hs:
         cmd += ["--harness", "gen::" + h.name]
     if overall_timeout is None:
@@ -155,8 +165,8 @@ def kani_run(hs, tag, jobs=16, harness_timeout=600, overall_timeout=None):
             continue
         hr = res[name]
         hr.duration = r.get("duration_ms", 0) / 1000.0
-        hr.stats = stats.get(r["harness_id"], {})
-        hr.props = pdet.get(r["harness_id"], {})
+        hr.stats = stats.get(r["harness_id"]) or {}
+        hr.props = pdet.get(r["harness_id"]) or {}
         err = errs.get(r["harness_id"], {})
         checks = r.get("checks", [])
         undetermined = 0
@@ -237,11 +247,17 @@ PLAYBACK_RE = re.compile(r"/// Check for `(\w+)`: \"(.*?)\"\s*\n(.*?)kani::concr
 VEC_RE = re.compile(r"vec!\[([0-9,\s]*)\]")
 
 
+def pb_target(slot):
+    tdir = os.path.join(WORK, f"target-pb{slot}")
+    seed_target(tdir)
+    return tdir
+
+
 def playback_vals(name, slot):
     """Re-run one harness with concrete playback (not compatible with -j, so one process per
     harness, each slot with its own target dir); return [(check_class, description, values)]."""
     lpath = os.path.join(WORK, f"playback-{name}.log")
-    cmd = ["cargo", "kani", "--target-dir", os.path.join(WORK, f"target-pb{slot}"), "-Z", "unstable-options", "-Z", "stubbing",
+    cmd = ["cargo", "kani", "--target-dir", pb_target(slot), "-Z", "unstable-options", "-Z", "stubbing",
            "-Z", "concrete-playback", "--concrete-playback=print", "--harness-timeout", "1200s", "--exact", "--harness", "gen::" + name]
     rc, out, wall = sh(cmd, cwd=HARN, timeout=1500, logfile=lpath)
     tests = []
@@ -317,7 +333,7 @@ def reproduces(hr, rep):
     if o == "ok":
         return "returned" in rep.get("covered", "")
     if o == "panic":
-        return bool(re.search(r"C\d\d:", rep["detail"]))
+        return bool(re.search(r"(C\d\d|ORACLE):", rep["detail"]))
     return False
 
 
@@ -475,16 +491,16 @@ def write_evidence(prop, tier, seed, res, wall, violations, inconclusive, known_
     fns = set()
     for r in hs:
         fns |= r.toodee_functions
-    total_checks = sum(r.props.get("total_properties", 0) for r in hs)
-    passed = sum(r.props.get("passed", 0) for r in hs)
-    solver_s = sum(r.stats.get("runtime_decision_procedure_s", 0) or 0 for r in hs)
-    symex_s = sum(r.stats.get("runtime_symex_s", 0) or 0 for r in hs)
-    nontrivial = [r for r in hs if r.status == "holds" and r.props.get("passed", 0) > 0]
+    total_checks = sum((r.props.get("total_properties") or 0) for r in hs)
+    passed = sum((r.props.get("passed") or 0) for r in hs)
+    solver_s = sum((r.stats or {}).get("runtime_decision_procedure_s", 0) or 0 for r in hs)
+    symex_s = sum((r.stats or {}).get("runtime_symex_s", 0) or 0 for r in hs)
+    nontrivial = [r for r in hs if r.status == "holds" and (r.props.get("passed") or 0) > 0]
     samples = []
     for r in hs[:400]:
         samples.append({
             "harness": r.h.name, "call": r.h.call, "kind": r.h.kind, "unwind": r.h.unwind, "verdict": r.status,
-            "why": r.why, "cbmc_checks": r.props.get("total_properties", 0), "passed": r.props.get("passed", 0),
+            "why": r.why, "cbmc_checks": r.props.get("total_properties") or 0, "passed": r.props.get("passed") or 0,
             "failed": [f"[{k}] {d} @ {fn}" for (k, d, fn, _f, _l) in r.failed][:8],
             "covers": r.covers, "seconds": round(r.duration, 1), "stubs": r.h.stubs,
         })
